@@ -44,7 +44,7 @@ def main() -> int:
                "oracle: member census, listed values round-trip by value, unlisted values raise, null -> None, const exactness, colliding member names => diagnostic. distinct = distinct (value-list class, shape flags, style) signatures")
     lists = list(FIXED_LISTS)
     alphabet = ["a", "B", "c1", "-", ".", " ", "_", "é", "9", "x", "Y", "zz", "!", "/"]
-    for _ in range(20 if quick else 400):
+    for _ in range(20 if quick else 1500):
         n = r.randint(1, 5)
         vals = []
         while len(vals) < n:
@@ -52,7 +52,7 @@ def main() -> int:
             if v not in vals:
                 vals.append(v)
         lists.append(vals)
-    for _ in range(6 if quick else 100):
+    for _ in range(6 if quick else 400):
         lists.append(sorted({r.randint(-1000, 1000) for _ in range(r.randint(1, 5))}))
     jobs, info = [], {}
     for le in (False, True):
